@@ -39,6 +39,10 @@ WRITE_MODES = ['w', 'a', 'x', 'r+', 'rb+', 'r+b', 'wb', 'ab', 'xb', 'w+', 'a+', 
 
 def find_guard(ctx):
     c = ctx.repo.cls('DataDir')
+    from ._shared import attr_from_param
+    pattr = attr_from_param(ctx.repo.cls('DataDir'), 'protectedpaths')
+    if pattr is None:
+        raise AnalysisError('DataDir: attribute holding the protected paths not found by role')
     cands = []
     for f in c.all_funcs():
         if f.name == '__init__' or f.is_property:
@@ -51,7 +55,7 @@ def find_guard(ctx):
         raises_oserror = any(isinstance(n, ast.Raise) and n.exc is not None and
                              (dotted(n.exc.func) if isinstance(n.exc, ast.Call) else dotted(n.exc)) == 'OSError'
                              for n in own_nodes(f.node))
-        if 'self._protectedpaths' in src_names and raises_oserror:
+        if f'self.{pattr}' in src_names and raises_oserror:
             cands.append(f)
     if len(cands) != 1:
         raise AnalysisError(f'protection guard of DataDir not identifiable by role: {cands}')
@@ -540,7 +544,8 @@ def d5_private_callers(ctx):
 def d6_protected_sets(ctx):
     dd = ctx.repo.cls('DataDir')
     init = dd.methods['__init__']
-    v = dd.init_attr_exprs.get('_protectedpaths')
+    from ._shared import attr_from_param
+    v = dd.init_attr_exprs.get(attr_from_param(dd, 'protectedpaths') or '')
     ctx.decide(v is not None and 'protectedpaths' in derived(init.node, v), 'R-FLOW', 'D6', init, v,
                'stores-protectedpaths', 'DataDir.__init__ stores the protectedpaths argument',
                detail='self._protectedpaths is not derived from the parameter')
